@@ -120,6 +120,10 @@ pub enum Inner {
     GenVec,
     /// `struct N<'a>(Cow<'a, str>)`, exercised at 'static
     Cow,
+    /// `struct N(ulib::FBox)`: a user type with non-reflexive equality (wraps an f32; values are `Val::F32`)
+    FBox,
+    /// `struct N<T>(T)` – a bare type parameter as inner type, exercised at T = i32 (values are `Val::I`)
+    GenT,
 }
 
 #[derive(Clone, Copy, Debug, PartialEq, Eq, Hash)]
@@ -148,6 +152,8 @@ impl Inner {
             Inner::Str => "String",
             Inner::VecI64 => "Vec<i64>",
             Inner::Point => "Point",
+            Inner::FBox => "FBox",
+            Inner::GenT => "T",
             Inner::GenVec => "Vec<T>",
             Inner::Cow => "Cow<'a, str>",
         }
@@ -157,6 +163,7 @@ impl Inner {
         match self {
             Inner::GenVec => "Vec<i64>",
             Inner::Cow => "Cow<'static, str>",
+            Inner::GenT => "i32",
             x => x.ty_src(),
         }
     }
@@ -164,6 +171,7 @@ impl Inner {
         match self {
             Inner::GenVec => "<T: Ord>",
             Inner::Cow => "<'a>",
+            Inner::GenT => "<T>",
             _ => "",
         }
     }
@@ -171,11 +179,20 @@ impl Inner {
         match self {
             Inner::GenVec => "<i64>",
             Inner::Cow => "<'static>",
+            Inner::GenT => "<i32>",
             _ => "",
         }
     }
     pub fn is_generic(self) -> bool {
-        matches!(self, Inner::GenVec | Inner::Cow)
+        matches!(self, Inner::GenVec | Inner::Cow | Inner::GenT)
+    }
+    /// the integer type whose serde / hash / display behaviour the (concrete) inner type has
+    pub fn int_ty(self) -> Option<IntTy> {
+        match self {
+            Inner::Int(t) => Some(t),
+            Inner::GenT => Some(IntTy::I32),
+            _ => None,
+        }
     }
 }
 
@@ -282,6 +299,8 @@ pub enum UFn {
     // any sanitizers
     SortDedup,
     PointAbsY,
+    FBoxAbs,
+    OrAnon,
     // predicates
     IsEven,
     CIsEven,
@@ -293,6 +312,7 @@ pub enum UFn {
     VecShort,
     PointOnDiag,
     CPointOnDiag,
+    FBoxSmall,
     // custom validators (with = .., error = ..)
     CheckInt,
     CheckFloat,
